@@ -146,6 +146,14 @@ def r3_termination(cx):
     b = F.body(f)
     drops = b.calls(r"std::mem::drop::<")
     joins = b.calls(r"JoinHandle::<.*>::join$")
+    # (the joins may sit in a closure run by an iterator adaptor: `threads.into_iter().try_for_each(|t| t.join()..)` --
+    #  the adaptor call in this body then stands for them)
+    in_closures = [(c, t) for c in F.closures_of(f) if "blocks" in c for _, t in F.body(c).calls(r"JoinHandle::<.*>::join$")]
+    if in_closures:
+        cids = {c["id"] for c, _ in in_closures}
+        built_here = any(st["k"] == "assign" and st["rv"]["k"] == "agg" and st["rv"].get("closure_fn") in cids for blk in b.blocks for st in blk["s"])
+        hosts = [(i, t) for i, t in b.calls(r"Iterator>::(try_for_each|for_each|try_fold|fold|map)::<")] if built_here else []
+        joins = joins + hosts[:len(in_closures)]
     dropped = set()
     for i, t in drops:
         dropped |= {x[1] for x in b.origins(t["args"][0]) if x[0] == "field"}
@@ -156,7 +164,10 @@ def r3_termination(cx):
     if len(joins) == 2:
         wj = [(i, t) for i, t in joins if ("field", "worker_threads") in b.origins(t["args"][0])]
         tj = [(i, t) for i, t in joins if ("field", "thread_handle") in b.origins(t["args"][0])]
-        ok = len(wj) == 1 and len(tj) == 1 and _in_loop(b, wj[0][0]) and b.dominates(_loop_head(b, wj[0][0]) or -1, tj[0][0]) if wj and tj else False
+        # (an iterator adaptor over worker_threads that runs the joining closure is the loop)
+        adaptor = bool(wj) and call_is(wj[0][1], r"Iterator>::(try_for_each|for_each|try_fold|fold)::<")
+        ok = len(wj) == 1 and len(tj) == 1 and ((adaptor and b.dominates(wj[0][0], tj[0][0])) or
+                                                (_in_loop(b, wj[0][0]) and b.dominates(_loop_head(b, wj[0][0]) or -1, tj[0][0]))) if wj and tj else False
         cx.ob("R3", "R3/all-threads-joined", ok, f, "every worker handle is joined in a loop, then the writer thread is joined and its result returned")
     # worker: drops its output sender when its input closes (so the writer's recv loop ends)
     g = F.one(impl_self="clusterwriter::ClusterCompressor", item="run", closure=False)
